@@ -191,6 +191,8 @@ func hook(env *Env, node int, fn *Fn, ctx context.Context, pos int, atEOF bool) 
 		panic(fmt.Sprintf("%s: panic in node %d", InjectedMsg, node))
 	case "temp":
 		return baseerrors.E(baseerrors.Temporary, fmt.Sprintf("%s: temporary error in node %d", InjectedMsg, node))
+	case "retriable":
+		return baseerrors.E(baseerrors.Retriable, fmt.Sprintf("%s: retriable error in node %d", InjectedMsg, node))
 	case "badpart":
 		return errBadPart
 	}
